@@ -8,6 +8,7 @@ package verifsim
 
 import (
 	"fmt"
+	"os"
 	"runtime"
 	"runtime/debug"
 	"sort"
@@ -218,6 +219,9 @@ func (s *Sim) kickCtl() {
 	default:
 	}
 }
+
+// traceCands (VERIF_TRACE_CANDS=1): labels list every candidate (determinism hunts).
+var traceCands = os.Getenv("VERIF_TRACE_CANDS") != ""
 
 // Kick wakes the controller (something changed).
 func (s *Sim) Kick() { s.kickCtl() }
@@ -736,6 +740,11 @@ func (s *Sim) Loop(maxFake time.Duration) {
 			d := Decision{K: "run", N: len(cands), C: idx}
 			if s.KeepFull {
 				d.L = fmt.Sprintf("g%s@%s", infos[idx].Key, infos[idx].Label)
+				if traceCands {
+					for _, ci := range infos {
+						d.L += " [" + ci.Key + "@" + ci.Label + "]"
+					}
+				}
 			}
 			s.Trace = append(s.Trace, d)
 		}
